@@ -901,6 +901,8 @@ def drop_cases(tier):
                   dict(drop=True, lazyframe=True), dict(drop=True, lazyframe=True, depth="SAD")):
             out.append((_tid("DROP", ["a", "b"], N, o), pl_frame_case, (["a", "b"], N, dict(o, fixpoint=False))))
         out.append((_tid("DROP", ["a", "b", "x"], N, dict(drop=True, strict="filter")), pl_frame_case, (["a", "b", "x"], N, dict(drop=True, strict="filter", fixpoint=False))))
+        if N == 2 and tier == "quick":  # two constraints of one column failing on different rows need three rows (a null and a pair of duplicates)
+            out.append((_tid("DROP", ["a", "b"], 3, dict(drop=True)), pl_frame_case, (["a", "b"], 3, dict(drop=True, fixpoint=False))))
         if N == 2:  # violations that dropping rows cannot resolve
             out.append((_tid("DROP", ["a", "b"], N, dict(drop=True, a_kind="int")), pl_frame_case, (["a", "b"], N, dict(drop=True, a_kind="int", fixpoint=False))))
             out.append((_tid("DROP", ["a"], N, dict(drop=True)), pl_frame_case, (["a"], N, dict(drop=True, fixpoint=False))))
